@@ -277,7 +277,7 @@ func (c *Ctx) ackID(g *paths.Graph, from []paths.Node, as Assume, label, typ str
 			if cl == nil || !ir.IsMethod(cl.Common(), pkgMessage, "header", "SetPacketID") {
 				return false
 			}
-			return n.F == wn.F && ir.PathOf(cl.Common().Args[0]).Root == resp
+			return resolveUp(n.F, cl.Common().Args[0]) == resolveUp(wn.F, resp)
 		}
 		var sets []paths.Node
 		g.FindPath(from, nil, func(n paths.Node) bool {
